@@ -141,7 +141,9 @@ def check_reported_optimum(problem, x_opt, f_opt_std, is_feasible, c_opt=None, c
             m = violation_measure(o, cons, tol_eq, tol_ineq)
             if m is None:
                 continue  # a partially evaluated point is never the witness
-            if m < m_rep:
+            # (the measure is re-computed here with another summation order: differences in the last
+            # bits are not a strict improvement)
+            if m < m_rep * (1.0 - 1e-9) - 1e-300:
                 out.append(("C04.least_infeasible", kind, f"entry {i} has violation measure {m} < {m_rep} of the reported entry {idx}"))
                 break
     # values reported are those recorded for that very point
